@@ -1,7 +1,7 @@
 """C15  No hidden shared state: results, arguments, caches, instances (many modules)."""
 import copy
 
-from vf.claim import Claim, assume, enum, fork, pick, raises_, real, untraced
+from vf.claim import Claim, assume, enum, fork, pick, raises_, real, symbolic_mode, untraced
 from vf.fuel import with_fuel
 from vf.ref import theory as T
 
@@ -239,6 +239,122 @@ def c15_copies(o: int, vel: int) -> bool:
     return [(n.name, n.octave) for n in b] == [("G", o), ("B", o)]
 
 
+class SymCache(dict):
+    """A memo table in an ARBITRARY state that satisfies the table's invariant "every stored entry equals the
+    cold value": whether a key is present is a fresh symbolic bool per key (decided lazily, only for the keys
+    the code asks about); a present key yields (a copy of) its cold value.  Entries the code writes are kept
+    so that the invariant can be re-checked afterwards (inductive step over all 2^n table states)."""
+
+    def __init__(self, cold_fn, name):
+        dict.__init__(self)
+        self.cold_fn = cold_fn
+        self.bits = {}
+        self.written = {}
+        self.name = name
+
+    def _present(self, k):
+        if k in self.written:
+            return True
+        if k not in self.bits:
+            if symbolic_mode():
+                from crosshair.core import proxy_for_type
+                from crosshair.core_and_libs import NoTracing
+                from crosshair.statespace import context_statespace
+
+                with NoTracing():
+                    self.bits[k] = proxy_for_type(bool, "%s_has_%s_%s" % (self.name, "".join(ch if ch.isalnum() else "_" for ch in str(k)), context_statespace().uniq()))
+            else:
+                self.bits[k] = False
+        try:
+            self.cold_fn(k)
+        except Exception:
+            return False  # keys that have no cold value are never stored
+        return fork(self.bits[k])
+
+    def __contains__(self, k):
+        return self._present(k)
+
+    def __getitem__(self, k):
+        if k in self.written:
+            return self.written[k]
+        if self._present(k):
+            return copy.deepcopy(self.cold_fn(k))
+        raise KeyError(k)
+
+    def __setitem__(self, k, v):
+        self.written[k] = v
+
+    def get(self, k, default=None):
+        return self[k] if self._present(k) else default
+
+    def setdefault(self, k, default=None):
+        if not self._present(k):
+            self.written[k] = default
+        return self[k]
+
+    def clear(self):
+        self.written.clear()
+        self.bits.clear()
+
+    def invariant(self):
+        for k, v in self.written.items():
+            if v != self.cold_fn(k):
+                return False
+        return True
+
+
+_COLD = {}
+
+
+def _cold_tables():
+    if not _COLD:
+        _reset()
+        allk = T.all_keys()
+        _COLD["notes"] = {k: list(keys.get_notes(k)) for k in allk}
+        _reset()
+        _COLD["triads"] = {k: copy.deepcopy(chords.triads(k)) for k in allk}
+        _reset()
+        _COLD["sevenths"] = {k: copy.deepcopy(chords.sevenths(k)) for k in allk}
+        _reset()
+    return _COLD
+
+
+CACHE_Q = [
+    ("keys.get_notes", lambda k: keys.get_notes(k)),
+    ("chords.triads", lambda k: chords.triads(k)),
+    ("chords.sevenths", lambda k: chords.sevenths(k)),
+    ("chords.subdominant7", lambda k: chords.subdominant7(k)),
+    ("intervals.sixth", lambda k: intervals.sixth(T.key_tonic(k), k)),
+    ("progressions.to_chords", lambda k: progressions.to_chords(["ii", "V7", "bIIIM7"], k)),
+    ("scale", lambda k: (scales.NaturalMinor(T.key_tonic(k)) if T.key_is_minor(k) else scales.HarmonicMajor(T.key_tonic(k))).ascending()),
+    ("relative", lambda k: keys.get_notes(_rel(k))),
+]
+
+
+def c15_cache_step(ki: int, qi: int) -> bool:
+    """inductive step over every state of the three memo tables: a query answers its cold value and leaves
+    every table entry equal to the cold value of its key"""
+    cold = _cold_tables()
+    k = pick(T.all_keys(), ki)
+    name, f = pick(CACHE_Q, qi)
+    _reset()
+    want = copy.deepcopy(f(k))
+    saved = (keys._key_cache, chords._triads_cache, chords._sevenths_cache)
+    a = SymCache(lambda x: cold["notes"][x], "keycache")
+    b = SymCache(lambda x: cold["triads"][x], "triads")
+    c = SymCache(lambda x: cold["sevenths"][x], "sevenths")
+    keys._key_cache, chords._triads_cache, chords._sevenths_cache = a, b, c
+    try:
+        got = f(k)
+        ok = got == want and a.invariant() and b.invariant() and c.invariant()
+        again = f(k)
+        ok = ok and again == want
+    finally:
+        keys._key_cache, chords._triads_cache, chords._sevenths_cache = saved
+        _reset()
+    return ok
+
+
 _FLI, _NL = with_fuel(fft._find_log_index, 300)
 CACHE = list(fft._log_cache)
 
@@ -282,6 +398,8 @@ def claims(tier):
     for qi in range(NB):
         nqk = 1 if q else 3
         cl.append(Claim("history[%s]" % _battery("C")[qi][0], c15_history, params={"qi": qi, "depth": depth, "qk0": qi % 3, "nqk": nqk}, group="c15_history", pre=[lambda qk, h1, k1, m1, h2, k2, m2: (qk == P["qk0"] if P["nqk"] == 1 else 0 <= qk < 3) and 0 <= h1 < NB and 0 <= k1 < 3 and 0 <= m1 < 3 and ((0 <= h2 < 6 and k2 == qk and m2 == 1) if P["depth"] > 1 else (h2 == 0 and k2 == 0 and m2 == 0))], timeout=1200 if q else 3400, per_path=60, bounds="query %s in %d key(s) after every history of one call from a %d-call battery x 3 keys x 3 in-place mutations of the returned value%s; then the query's own result is mutated and it is asked again" % (_battery("C")[qi][0], nqk, NB, "" if depth == 1 else " followed by one of the 6 memo-table-touching calls in the query's key with a nested edit of its result")))
+    for qi in range(len(CACHE_Q)):
+        cl.append(Claim("cache_step[%s]" % CACHE_Q[qi][0], c15_cache_step, params={"qi": qi}, group="c15_cache_step", inductive=False, pre=[lambda ki, qi: 0 <= ki < 30 and qi == P["qi"]], timeout=1200 if q else 3000, bounds="query %s in all 30 keys from EVERY state of the three memo tables that satisfies 'stored entry == cold value' (presence of each key a symbolic bool): answer == cold value, tables still satisfy the invariant" % CACHE_Q[qi][0]))
     cl.append(Claim("args", c15_args, pre=[lambda i: 0 <= i < len(ARGF)], timeout=900, per_path=60, bounds="%d list-taking public functions: argument deep-equal afterwards, result shares no list object with it" % len(ARGF)))
     for si in range(NS):
         cl.append(Claim("siblings[%s]" % _script(si)[0].__name__, c15_siblings, params={"si": si}, group="c15_siblings", pre=[lambda i: i == P["si"]], timeout=600, bounds="class %s: operating on one instance leaves a sibling, a later fresh instance and the class attributes unchanged" % _script(si)[0].__name__))
